@@ -62,6 +62,7 @@ mod proofs {
         (q, s, payloads)
     }
 
+    /// `_mm_pause` is not modelled by Kani; a spin hint has no effect on program state
     pub(crate) fn noop() {}
 
     fn buffer_of<const N: usize>(q: &AtomicMove<u32, N>) -> [u32; N] { unsafe { *raw_buffer(q) } }
@@ -73,7 +74,7 @@ mod proofs {
 
         // ---- C01/C02/C15/C16: publish_movable -----------------------------------------------------------
         // @props C01 C02 C15 C16
-        #[kani::proof] #[kani::unwind($unw)]
+        #[kani::proof] #[kani::unwind($unw)] #[kani::stub(std::hint::spin_loop, noop)]
         fn publish_movable() {
             let (q, s, before) = any_queue::<N>();
             // `publish_movable` is only callable while the caller holds no reservation, unless it is going to be rejected
@@ -103,7 +104,7 @@ mod proofs {
 
         // ---- publish (setter variant) -----------------------------------------------------------------------
         // @props C01 C02 C15 C16
-        #[kani::proof] #[kani::unwind($unw)]
+        #[kani::proof] #[kani::unwind($unw)] #[kani::stub(std::hint::spin_loop, noop)]
         fn publish_with_setter() {
             let (q, s, before) = any_queue::<N>();
             kani::assume(s.resv == 0 || s.len + s.resv == N as u32);
@@ -139,7 +140,7 @@ mod proofs {
 
         // ---- C01/C02: consume_movable --------------------------------------------------------------------------
         // @props C01 C02 C15
-        #[kani::proof] #[kani::unwind($unw)]
+        #[kani::proof] #[kani::unwind($unw)] #[kani::stub(std::hint::spin_loop, noop)]
         fn consume_movable() {
             let (q, s, before) = any_queue::<N>();
             let got = q.consume_movable();
@@ -160,7 +161,7 @@ mod proofs {
 
         // ---- C02: length query --------------------------------------------------------------------------------
         // @props C02 C15 C16
-        #[kani::proof] #[kani::unwind($unw)]
+        #[kani::proof] #[kani::unwind($unw)] #[kani::stub(std::hint::spin_loop, noop)]
         fn available_elements_count() {
             let (q, s, _) = any_queue::<N>();
             assert!(q.available_elements_count() == s.len as usize,          "pending count == |seq|");
@@ -170,7 +171,7 @@ mod proofs {
 
         // ---- C08/C15/C16: reserve ----------------------------------------------------------------------------
         // @props C08 C15 C16
-        #[kani::proof] #[kani::unwind($unw)]
+        #[kani::proof] #[kani::unwind($unw)] #[kani::stub(std::hint::spin_loop, noop)]
         fn leak_slot_internal() {
             let (q, s, before) = any_queue::<N>();
             let base = raw_buffer(&q) as *mut u32;
@@ -197,8 +198,7 @@ mod proofs {
 
         // ---- C08/C15: publish a reservation by index (lap reconstruction) ---------------------------------
         // @props C08 C15
-        #[kani::proof] #[kani::unwind($unw)]
-        #[kani::stub(crate::ogre_std::ogre_queues::atomic::atomic_move::relaxed_wait, noop)]   // `_mm_pause` is not modelled by Kani; a spin hint has no effect on state
+        #[kani::proof] #[kani::unwind($unw)] #[kani::stub(std::hint::spin_loop, noop)]
         fn try_publish_leaked_internal_index() {
             let (q, s, before) = any_queue::<N>();
             kani::assume(s.resv >= 1);
@@ -227,7 +227,7 @@ mod proofs {
 
         // ---- C08/C15: cancel a reservation by index -----------------------------------------------------------
         // @props C08 C15
-        #[kani::proof] #[kani::unwind($unw)]
+        #[kani::proof] #[kani::unwind($unw)] #[kani::stub(std::hint::spin_loop, noop)]
         fn try_unleak_slot_index_internal() {
             let (q, s, before) = any_queue::<N>();
             kani::assume(s.resv >= 1);
@@ -250,7 +250,7 @@ mod proofs {
 
         // ---- C08/C13: index <-> reference conversions are inverse ------------------------------------------
         // @props C08
-        #[kani::proof] #[kani::unwind($unw)]
+        #[kani::proof] #[kani::unwind($unw)] #[kani::stub(std::hint::spin_loop, noop)]
         fn slot_index_ref_roundtrip() {
             let (q, _s, before) = any_queue::<N>();
             let i: u32 = kani::any(); kani::assume(i < N as u32);
@@ -261,7 +261,7 @@ mod proofs {
 
         // ---- C01: peek_remaining == seq ----------------------------------------------------------------------
         // @props C01 C10
-        #[kani::proof] #[kani::unwind($unw)]
+        #[kani::proof] #[kani::unwind($unw)] #[kani::stub(std::hint::spin_loop, noop)]
         fn peek_remaining() {
             let (q, s, before) = any_queue::<N>();
             let [a, b] = unsafe { q.peek_remaining() };
@@ -293,7 +293,7 @@ mod proofs {
 
         /// any origin; `len` elements published through the real API; then one reject, `c` consumes, teardown with leftovers
         // @props C05 C15
-        #[kani::proof] #[kani::unwind($unw)]
+        #[kani::proof] #[kani::unwind($unw)] #[kani::stub(std::hint::spin_loop, noop)]
         fn payload_drop_accounting() {
             let q = AtomicMove::<Droppy, N>::with_initializer(|| Droppy(0));
             let origin: u32 = kani::any();
